@@ -919,6 +919,7 @@ pub fn cmd_check(prop: &str, tier: Tier) -> i32 {
     let mut set_sizes: BTreeMap<String, u64> = BTreeMap::new();
     let mut samples: Vec<Value> = Vec::new();
     let mut per_world: Vec<Value> = Vec::new();
+    let mut fault_sweep: Value = json!(null);
     for r in &results {
         for (k, v) in &r.probes {
             *probes.entry(k.clone()).or_insert(0) += v;
@@ -934,6 +935,14 @@ pub fn cmd_check(prop: &str, tier: Tier) -> i32 {
         }
         for s in r.samples.iter().take(if results.len() > 1 { 1 } else { 3 }) {
             samples.push(s.clone());
+        }
+        if r.sweep {
+            let names: Vec<String> = with_world!(r.world.as_str(), W => <W as World>::sweep_names());
+            fault_sweep = json!({
+                "world": r.world, "cells": names.len(), "cells_executed": r.runs, "violating_cells": r.violating_runs,
+                "exhaustive": r.runs == names.len() as u64,
+                "cell_names": names,
+            });
         }
         per_world.push(json!({
             "world": r.world, "fault_sweep_stage": r.sweep, "runs": r.runs, "steps": r.steps, "failing_operations": r.fail_ops,
@@ -975,6 +984,7 @@ pub fn cmd_check(prop: &str, tier: Tier) -> i32 {
             "probes": probes,
             "measured_sets": set_sizes,
             "per_world": per_world,
+            "fault_sweep": fault_sweep,
             "profiles": profiles,
             "runs_per_hour": if wall > 0.0 { (runs as f64 / wall * 3600.0) as u64 } else { 0 },
             "simulated_time": "not applicable: konst has no clock; logical steps are reported instead",
